@@ -46,6 +46,8 @@ class Gen:
                     d = None
                     if i > 0 and rng.random() < 0.6:
                         d = rng.choice(["0", f"{p1} + 1", "c", f"{p1} * 2"])
+                        if prof.faults and rng.random() < prof.faults:
+                            d = rng.choice(["d['missing']", "1 % 0", "undefined_name", f"xs[{p1} + 50]"])   # a default that fails
                     ps.append((pn, d))
                 self.sig[nm] = ps
         self.hooks = []
@@ -121,8 +123,10 @@ class Gen:
             elif k < 0.75:
                 parts.append("{" + self.maybe_fault(self.cond_expr(scope), "inline-cond") + " ? " +
                              r.choice(["yes", "big {a}", ""]) + " | " + r.choice(["no", "small", ""]) + "}")
-            elif k < 0.85:
+            elif k < 0.82:
                 parts.append("{s}")
+            elif k < 0.87:
+                parts.append("{_inputs.get('nm', 'nobody')}")
             else:
                 parts.append(r.choice(["ok.", "fine", "now"]))
         line = " ".join(parts)
@@ -243,7 +247,14 @@ class Gen:
             inner.append("    " + self.choice_line(sc, loopvar=var))
         if r.random() < 0.18 * (self.p.jumps > 0):
             t = self.target()
-            inner.append(f"    -> {t}{self.call_args(t, sc)}")
+            if coll != "list(d)" and r.random() < 0.5:
+                # leave the loop in a later iteration only
+                if self.p.directives and r.random() < 0.6:
+                    inner.insert(0, f"    @render row({var})")          # directives of the earlier iterations must be kept
+                inner += [f"    @if {var} >= {r.choice([1, 2, 7])}:", f"        -> {t}{self.call_args(t, sc)}", "    @endif"]
+                self.tag("jump-in-later-iteration")
+            else:
+                inner.append(f"    -> {t}{self.call_args(t, sc)}")
             self.tag("jump-in-loop")
         out += inner
         out.append("@endfor")
@@ -411,7 +422,9 @@ def gen_ops(rng: random.Random, n: int, style: str = "mixed", saveload: bool = F
         if style == "choose-only":
             ops.append(("choose_valid", rng.randint(0, 5)))
         elif saveload and rng.random() < 0.12:
-            ops.append(rng.choice([("reload",), ("save",), ("load",), ("save",), ("load",)]))
+            ops.append(rng.choice([("reload",), ("save",), ("load",), ("save",), ("load",),
+                                   ("inputs", rng.choice(["nm", "who"]), rng.choice(["Alice", "Bob", ""])),
+                                   ("inputs", "nm", "Zed"), ("badload", rng.randint(0, 9)), ("badload", rng.randint(0, 9))]))
         elif k < 0.5:
             ops.append(("choose_valid", rng.randint(0, 5)))
         elif k < 0.58:
